@@ -83,8 +83,11 @@ func (p *Prog) heldAt(f *ssa.Function, field string) func(ssa.Instruction) bool 
 			ops[op.In] = op
 		}
 	}
+	// an unexported function that is only called (statically) from places where the lock is held runs under the
+	// caller's lock (`loadIntoCache(key, name)`, called by FromCache between Lock and the deferred Unlock)
+	entryHeld := p.heldByCallers(f, field, 0)
 	if len(ops) == 0 {
-		return func(ssa.Instruction) bool { return false }
+		return func(ssa.Instruction) bool { return entryHeld }
 	}
 	// block-level fixpoint: out[b] = state after b; in[b] = AND of preds' out (entry: false)
 	in := map[*ssa.BasicBlock]bool{}
@@ -92,7 +95,7 @@ func (p *Prog) heldAt(f *ssa.Function, field string) func(ssa.Instruction) bool 
 	for _, b := range f.Blocks {
 		in[b], out[b] = true, true // optimistic start for must-analysis
 	}
-	in[f.Blocks[0]] = false
+	in[f.Blocks[0]] = entryHeld
 	transfer := func(b *ssa.BasicBlock, st bool, visit func(ssa.Instruction, bool)) bool {
 		for _, x := range b.Instrs {
 			if visit != nil {
@@ -109,7 +112,7 @@ func (p *Prog) heldAt(f *ssa.Function, field string) func(ssa.Instruction) bool 
 		for _, b := range f.Blocks {
 			st := b != f.Blocks[0]
 			if b == f.Blocks[0] {
-				st = false
+				st = entryHeld
 			} else {
 				for _, pr := range b.Preds {
 					st = st && out[pr]
@@ -152,4 +155,36 @@ func fieldOfKey(k string) string {
 		return k[i+1:]
 	}
 	return k
+}
+
+var heldByCallersBusy = map[*ssa.Function]bool{}
+
+// heldByCallers: f is an unexported function of the package, called only statically, and at every one of its call
+// sites the caller holds the lock `field` (two levels up at most).
+func (p *Prog) heldByCallers(f *ssa.Function, field string, depth int) bool {
+	if f == nil || f.Parent() != nil || depth > 2 || heldByCallersBusy[f] || !p.InPkg(f) || (f.Object() != nil && f.Object().Exported()) || !p.staticOnly(f, nil) {
+		return false
+	}
+	node := p.CG.Nodes[f]
+	if node == nil || len(node.In) == 0 {
+		return false
+	}
+	heldByCallersBusy[f] = true
+	defer delete(heldByCallersBusy, f)
+	for _, e := range node.In {
+		caller := e.Caller.Func
+		if caller == nil || caller.Blocks == nil || !p.InPkg(caller) || e.Site == nil {
+			return false
+		}
+		if _, isDefer := e.Site.(*ssa.Defer); isDefer {
+			return false
+		}
+		if _, isGo := e.Site.(*ssa.Go); isGo {
+			return false
+		}
+		if !p.heldAt(caller, field)(e.Site.(ssa.Instruction)) {
+			return false
+		}
+	}
+	return true
 }
